@@ -111,6 +111,36 @@
     fn notify_stub(_c: &std::sync::Condvar) {}
     use crate::enc::lzma2_writer::verif_kani::{wk_new, wk_write_chunk, wk_start_independent, WK_NEW};
 
+    #[kani::proof]
+    #[kani::unwind(4)]
+    #[kani::stub(LZMA2Writer::new, wk_new)]
+    #[kani::stub(LZMA2Writer::write_chunk, wk_write_chunk)]
+    #[kani::stub(LZMA2Writer::start_independent_chunk, wk_start_independent)]
+    #[kani::stub(crate::enc::lz::LZEncoder::fill_window, crate::enc::lzma2_writer::verif_kani::fill_window_stub)]
+    #[kani::stub(crate::enc::lz::LZEncoder::set_flushing, crate::enc::lzma2_writer::verif_kani::lz_noop_stub)]
+    #[kani::stub(crate::enc::encoder::LZMAEncoder::encode_for_lzma2, crate::enc::lzma2_writer::verif_kani::encode_for_lzma2_stub)]
+    #[kani::stub(std::sync::Condvar::notify_one, notify_stub)]
+    #[kani::stub(std::sync::Condvar::notify_all, notify_stub)]
+    #[kani::stub(alloc::sync::Arc::drop_slow, vk::arc_leak_stub)]
+    //@CHAN
+    fn dbg_worker_one_unit() {
+        vk::chan_init::<ResultUnit>();
+        let q: WorkStealingQueue<WorkUnit> = WorkStealingQueue::new();
+        let (tx, _rx) = mpsc::channel::<ResultUnit>();
+        let _rx = core::mem::ManuallyDrop::new(_rx);
+        let _tx2 = core::mem::ManuallyDrop::new(tx.clone());
+        let mut d0 = Vec::new();
+        d0.push(0x11);
+        assert!(q.push((0, d0)));
+        q.close();
+        let o = LZMA2Options { lzma_options: crate::LZMAOptions { dict_size: 4096, lc: 3, lp: 0, pb: 2, mode: crate::EncodeMode::Fast, nice_len: 32, mf: crate::MFType::HC4,
+            depth_limit: 0, preset_dict: None }, chunk_size: core::num::NonZeroU64::new(4096) };
+        let shutdown = Arc::new(AtomicBool::new(false));
+        let errs: Arc<Mutex<Option<io::Error>>> = Arc::new(Mutex::new(None));
+        let active = Arc::new(AtomicU32::new(0));
+        worker_thread_logic(q.worker(), tx, o, Arc::clone(&shutdown), Arc::clone(&errs), Arc::clone(&active));
+        assert!(unsafe { vk::CHAN_SENT } == 1);
+    }
     /// C08.worker / C13.fresh (LZMA2 writer): the worker loop run sequentially on a queue holding two units (then closed):
     /// for each unit exactly one result with the SAME sequence number is sent, its bytes are the encoding of exactly that
     /// unit's bytes and start with a dictionary-reset chunk (the unit is decodable on its own, wherever it lands in the
